@@ -182,6 +182,35 @@ def run(tier, seed, replay=None):
                     fail('circle_segment_from_three_points', targs, 'is not on the circle through the three points')
         except Exception as e:  # noqa
             fail('circle_segment_from_three_points', targs, 'raised %s' % type(e).__name__)
+        # ------------------------------------------------ three points given in different dimensions: a 2-D point is a point
+        # of the plane z = 0; the arc is the 3-D arc through the three points (independent circumcircle)
+        try:
+            P = [np.array([rng.randint(-6, 6) / 2.0, rng.randint(-6, 6) / 2.0, rng.choice([0.0, rng.randint(-6, 6) / 2.0])]) for _ in range(3)]
+            flat = [i_ for i_ in range(3) if P[i_][2] == 0.0]
+            A_, B_, C_ = P
+            nrm_ = np.cross(B_ - A_, C_ - A_)
+            if flat and len(flat) < 3 and np.linalg.norm(nrm_) > 0.5 and min(np.linalg.norm(A_ - B_), np.linalg.norm(B_ - C_), np.linalg.norm(A_ - C_)) > 0.4:
+                given = [(p_[:2] if (i_ in flat and rng.random() < 0.8) else p_) for i_, p_ in enumerate(P)]
+                if any(len(g_) == 2 for g_ in given):
+                    margs = dict(x0=given[0].tolist(), x1=given[1].tolist(), x2=given[2].tolist())
+                    # circumcentre
+                    a_, b_ = A_ - C_, B_ - C_
+                    cc_ = C_ + np.cross(np.dot(a_, a_) * b_ - np.dot(b_, b_) * a_, np.cross(a_, b_)) / (2 * np.dot(np.cross(a_, b_), np.cross(a_, b_)))
+                    R_ = np.linalg.norm(A_ - cc_)
+                    seg = cf.circle_segment_from_three_points(*given)
+                    count('circle_segment_from_three_points (mixed dimensions)')
+                    ts = np.linspace(seg.start(0), seg.end(0), 600)
+                    Pm = np.asarray(seg.evaluate(ts), dtype=float)
+                    if Pm.shape[1] != 3:
+                        fail('circle_segment_from_three_points', margs, 'points of dimensions 2 and 3 give a curve of dimension %d' % Pm.shape[1])
+                    elif np.linalg.norm(Pm[0] - A_) > 1e-7 * max(1, R_) or np.linalg.norm(Pm[-1] - C_) > 1e-7 * max(1, R_):
+                        fail('circle_segment_from_three_points', margs, 'does not run from the first to the third point (mixed dimensions)')
+                    elif np.min(np.linalg.norm(Pm - B_, axis=1)) > 2 * pi * R_ / 300:
+                        fail('circle_segment_from_three_points', margs, 'does not pass through the second point (mixed dimensions)')
+                    elif np.max(np.abs(np.linalg.norm(Pm - cc_, axis=1) - R_)) > 1e-7 * max(1, R_) or np.max(np.abs((Pm - cc_) @ (nrm_ / np.linalg.norm(nrm_)))) > 1e-7 * max(1, R_):
+                        fail('circle_segment_from_three_points', margs, 'is not on the circle through the three points (mixed dimensions)')
+        except Exception as e:  # noqa
+            fail('circle_segment_from_three_points', dict(points=[p_.tolist() for p_ in P]), 'raised %s (mixed dimensions)' % type(e).__name__)
         # ------------------------------------------------ n-gon
         ng = rng.randint(3, 9)
         try:
